@@ -46,13 +46,14 @@ def run(chk):
         chk.validate(f'oracle-enumerated-{i}', 'Trace_Align', 'Trace_Align.cfg', recs, driver='align', jobs=12)
     recs = core.run_driver('align', tier=chk.tier, seed=chk.seed, args=dict(prop='C15'))
     chk.validate('float', 'Trace_Align', 'Trace_Align.cfg', recs, driver='align', jobs=12)
-    good = [r for r in recs if r['kind'] == 'apply' and r['exc'] == '' and r['ref']
-            and r['mapping'][0][0] != r['mapping'][1][0]][0]
+    goods = [r for r in recs if r['kind'] == 'apply' and r['exc'] == '' and r['ref']
+            and r['mapping'][0][0] != r['mapping'][1][0]]
+    good = goods[0]
 
     def corrupt(r):
         r['out'][0][0], r['out'][1][0] = r['out'][1][0], r['out'][0][0]
         return r
-    core.binding_demo(chk, 'bind-ref', 'Trace_Align', 'Trace_Align.cfg', good, corrupt, 'equals_ref')
+    core.binding_demo(chk, 'bind-ref', 'Trace_Align', 'Trace_Align.cfg', good, corrupt, 'equals_ref', candidates=goods[1:])
     chk.assumptions = ['oracle inversion with greedy+multiply is claimed for references with equal-norm rows only '
                        '(for unequal norms the largest product need not be the matching pair; TLC premise)',
                        'float optimality: exact totals by Fraction in the encoder, units eps*sum|S|']
